@@ -30,13 +30,22 @@ try:
         print(f"demo: with change rc={bad.returncode} (must be !=0), without rc={good.returncode} (must be 0)")
         if bad.returncode == 0 or good.returncode != 0:
             print((bad.stdout + bad.stderr)[-600:]); print((good.stdout + good.stderr)[-600:])
+    results = {}
     for c in checks:
         r = subprocess.run(["./check", c, "--tier", a.tier, "--jobs", a.jobs], cwd="/verif", env=env, capture_output=True, text=True)
         sigs = [l.split("signature=")[1].split()[0] for l in r.stdout.splitlines() if l.startswith("VIOLATION") and "signature=" in l]
         verdict = {0: "MISSED (held)", 1: "CAUGHT", 3: "INCONCLUSIVE"}.get(r.returncode, f"rc={r.returncode}")
         print(f"{os.path.basename(d)} {c} {a.tier}: {verdict} {len(sigs)} signatures: {sigs[:4]}")
+        results[c] = {"tier": a.tier, "outcome": verdict, "signatures": sigs[:8]}
         if r.returncode == 3:
             print("   ", [l for l in r.stdout.splitlines() if l.startswith("INCONCLUSIVE")][:3])
+    rp = os.path.join(d, "result.json")
+    old = json.load(open(rp)) if os.path.exists(rp) else {}
+    old.setdefault("checks", {}).update(results)
+    if a.demo:
+        old["demo"] = {"rc_with_change": bad.returncode, "rc_without_change": good.returncode}
+    old["base_commit"] = subprocess.run(["git", "-C", "/repo", "rev-parse", "--short", "HEAD"], capture_output=True, text=True).stdout.strip()
+    json.dump(old, open(rp, "w"), indent=1)
 finally:
     subprocess.run(["git", "-C", "/repo", "worktree", "remove", "--force", root + "/wt"], capture_output=True)
     shutil.rmtree(root, ignore_errors=True)
